@@ -1,5 +1,6 @@
 import Receptor.Proofs.Forward
 import Receptor.Generated.Facts
+import Receptor.Model.Pipeline
 /-!
 # C16 — senders learn when the target service does not exist; dials to it fail fast
 -/
@@ -12,13 +13,17 @@ def dialCancelledBy (remoteNode : Node) (remoteSvc : Svc) (n : NoticeBody) : Boo
 
 /-- **Tie (translator)**: the unknown-or-closed-listener branch of `handleMessageData`
 (synchronous error for a local sender, `service unknown` notice otherwise), the per-socket
-filter of `StartUnreachable`, and the cancel condition of `monitorUnreachable`. -/
+filter of `StartUnreachable`, and the cancel condition of `monitorUnreachable`; every hop from the node's broker to
+the reader of `SubscribeUnreachable` is a send on an unbuffered channel that blocks (only the context ends it): no
+buffer that can fill up, no `default` branch that discards — the pipeline model's `dropAt = none`. -/
 theorem C16_facts :
     Receptor.Facts.unreach_unknown_branch = "!ok || pc.context.Err() != nil;md.FromNode == s.nodeID:error;notice:ProblemServiceUnknown"
     ∧ Receptor.Facts.unreach_socket_filter = "FromNode == pc.s.NodeID() && FromService == pc.localService"
     ∧ Receptor.Facts.unreach_dial_cancel = "msg.Problem == ProblemServiceUnknown && msg.ToNode == remoteAddr.node && msg.ToService == remoteAddr.service"
     ∧ Receptor.Facts.unreach_notice_fields = "FromNode:md.FromNode;ToNode:md.ToNode;FromService:md.FromService;ToService:md.ToService"
-    ∧ Receptor.Facts.unreach_sent_from = "unreach->toNode:unreach" := by decide
+    ∧ Receptor.Facts.unreach_sent_from = "unreach->toNode:unreach"
+    ∧ Receptor.Facts.unreach_hops = "broker.deliver:select-send|<-b.ctx.Done();broker.publish:select-send|<-b.ctx.Done();broker.sub-chan:make(chan interface{});broker.publish-chan:make(chan interface{});sub.chan:make(chan UnreachableNotification);sub.forward:plain-send" := by
+  decide +kernel
 
 /-- **notice_fields_echo.** A datagram from another node that reaches a node where nothing
 listens on the addressed (non-reserved) service makes that node originate exactly one packet:
@@ -94,3 +99,166 @@ theorem drop_is_silent (me : Node) (cfg : NodeCfg) (p : Packet)
   simp [observe, handle, hfw]
 
 end Receptor.Forward
+
+namespace Receptor.Pipeline
+
+theorem passAt_keeps : ∀ (i : Nat) (l : List (Option Nat)), (passAt false i l).filterMap id = l.filterMap id := by
+  intro i
+  induction i with
+  | zero =>
+    intro l
+    match l with
+    | [] => rfl
+    | [none] => rfl
+    | [some _] => rfl
+    | none :: _ :: _ => rfl
+    | some m :: none :: rest => simp [passAt]
+    | some m :: some x :: rest => simp [passAt]
+  | succ j ih =>
+    intro l
+    match l with
+    | [] => rfl
+    | s :: rest =>
+      simp only [passAt]
+      cases s <;> simp [ih rest]
+
+theorem popLast_spec : ∀ (l : List (Option Nat)) (m : Nat) (ss : List (Option Nat)), popLast l = some (m, ss) →
+    l.filterMap id = ss.filterMap id ++ [m] ∧ ss.length = l.length := by
+  intro l
+  induction l with
+  | nil => intro m ss h; simp [popLast] at h
+  | cons s rest ih =>
+    intro m ss h
+    match rest, s with
+    | [], some x =>
+      simp only [popLast, Option.some.injEq, Prod.mk.injEq] at h
+      obtain ⟨rfl, rfl⟩ := h
+      simp
+    | [], none => simp [popLast] at h
+    | r :: rest', s =>
+      simp only [popLast, Option.map_eq_some_iff] at h
+      obtain ⟨⟨m', ss'⟩, hp, heq⟩ := h
+      simp only [Prod.mk.injEq] at heq
+      obtain ⟨rfl, rfl⟩ := heq
+      obtain ⟨h1, h2⟩ := ih m' ss' hp
+      refine ⟨?_, by simp [h2]⟩
+      cases s with
+      | none => simpa using h1
+      | some x => simp [h1]
+
+/-- **no_notice_lost.** With blocking hand-offs, whatever the schedule of the stages: nothing is lost, nothing is
+duplicated, the order is kept — what has been read, what is on its way and what the publisher still holds are, in
+this order, exactly what was published. -/
+theorem no_notice_lost : ∀ (moves : List Move) (p : Pipe), contents (run none p moves) = contents p := by
+  intro moves
+  induction moves with
+  | nil => intro p; rfl
+  | cons mv rest ih =>
+    intro p
+    simp only [run]
+    rw [ih]
+    cases mv with
+    | take =>
+      simp only [step]
+      split
+      · rename_i m rest' ss hp hs
+        simp [contents, hp, hs]
+      · rfl
+    | pass i =>
+      simp only [step, contents]
+      have : (none == some i) = false := rfl
+      rw [this, passAt_keeps]
+    | read =>
+      simp only [step]
+      split
+      · rename_i m ss hp
+        obtain ⟨h1, _⟩ := popLast_spec _ m ss hp
+        simp [contents, h1]
+      · rfl
+
+/-- what has been read is always a prefix of what was published, in order -/
+theorem delivered_is_prefix (moves : List Move) (published : List Nat) (k : Nat) :
+    ∃ tail, published = (run none { pending := published, slots := List.replicate k none, delivered := [] } moves).delivered ++ tail := by
+  have h := no_notice_lost moves { pending := published, slots := List.replicate k none, delivered := [] }
+  have h0 : contents { pending := published, slots := List.replicate k none, delivered := [] } = published := by
+    simp only [contents, List.nil_append]
+    have : (List.replicate k (none : Option Nat)).filterMap id = [] := by
+      induction k with
+      | zero => rfl
+      | succ j ih => simp [List.replicate_succ]
+    simp [this]
+  rw [h0] at h
+  refine ⟨((run none { pending := published, slots := List.replicate k none, delivered := [] } moves).slots.filterMap id).reverse
+            ++ (run none { pending := published, slots := List.replicate k none, delivered := [] } moves).pending, ?_⟩
+  have h' := h.symm
+  simp only [contents, List.append_assoc] at h'
+  exact h'
+
+theorem slots_progress : ∀ (l : List (Option Nat)), l.filterMap id ≠ [] →
+    (∃ m ss, popLast l = some (m, ss)) ∨ (∃ i, passAt false i l ≠ l) := by
+  intro l
+  induction l with
+  | nil => intro h; simp at h
+  | cons s rest ih =>
+    intro h
+    match rest, s with
+    | [], some m => exact Or.inl ⟨m, [none], rfl⟩
+    | [], none => simp at h
+    | r :: rest', s =>
+      by_cases ht : (r :: rest').filterMap id = []
+      · -- everything behind the first slot is empty: the first slot is full and can hand over
+        have hr : r = none := by
+          cases r with
+          | none => rfl
+          | some x => simp at ht
+        subst hr
+        cases s with
+        | none => simp [ht] at h
+        | some m => exact Or.inr ⟨0, by simp [passAt]⟩
+      · rcases ih ht with ⟨m, ss, hp⟩ | ⟨i, hi⟩
+        · exact Or.inl ⟨m, s :: ss, by simp [popLast, hp]⟩
+        · exact Or.inr ⟨i + 1, by simpa [passAt] using hi⟩
+
+/-- **no_deadlock.** As long as a published notice has not been read, some stage can move: the chain of blocking
+hand-offs never wedges by itself (the reader only has to keep reading). -/
+theorem no_deadlock (p : Pipe) (hs : p.slots ≠ []) (h : contents p ≠ p.delivered) : ∃ mv, step none p mv ≠ p := by
+  by_cases hc : p.slots.filterMap id = []
+  · -- nothing on its way: something is still with the publisher, and the first slot is free
+    have hp : p.pending ≠ [] := by
+      intro he
+      apply h
+      simp [contents, hc, he]
+    obtain ⟨m, rest, hm⟩ := List.exists_cons_of_ne_nil hp
+    obtain ⟨s, ss, hss⟩ := List.exists_cons_of_ne_nil hs
+    have hsn : s = none := by
+      cases s with
+      | none => rfl
+      | some x => rw [hss] at hc; simp at hc
+    refine ⟨.take, ?_⟩
+    simp only [step, hm, hss, hsn]
+    intro he
+    have := congrArg Pipe.pending he
+    simp [hm] at this
+  · rcases slots_progress p.slots hc with ⟨m, ss, hp⟩ | ⟨i, hi⟩
+    · refine ⟨.read, ?_⟩
+      simp only [step, hp]
+      intro he
+      have := congrArg (fun q => q.delivered.length) he
+      simp at this
+    · refine ⟨.pass i, ?_⟩
+      simp only [step]
+      have : (none == some i) = false := rfl
+      rw [this]
+      intro he
+      exact hi (congrArg Pipe.slots he)
+
+/-- Witness: a hop that discards when the next one is busy loses notices of a burst behind a slow reader -/
+theorem C16_witness_drop_when_busy :
+    (run (some 0) { pending := [1, 2, 3], slots := [none, none], delivered := [] }
+      [.take, .pass 0, .take, .pass 0, .take, .pass 0, .read, .pass 0, .read, .pass 0, .read]).delivered = [1]
+    ∧ (run none { pending := [1, 2, 3], slots := [none, none], delivered := [] }
+      [.take, .pass 0, .take, .pass 0, .read, .pass 0, .take, .read, .pass 0, .read]).delivered = [1, 2, 3] := by
+  decide
+
+
+end Receptor.Pipeline
